@@ -1,5 +1,9 @@
 import AfqmcVerif.Lemmas.SingleDet
 import Mathlib.LinearAlgebra.Matrix.Block
+import Mathlib.Tactic.Ring
+import Mathlib.Tactic.FieldSimp
+import Mathlib.Data.Rat.Defs
+import Mathlib.LinearAlgebra.Matrix.Notation
 
 /-!
 # C13 — orthonormalisation never changes the represented state (all dimensions)
@@ -57,5 +61,65 @@ occupied space (`U` unitary) has overlap of modulus one with an orthonormal tria
 theorem init_walker_overlap (C : Matrix (Fin m) (Fin k) K) (U : Matrix (Fin k) (Fin k) K)
     (hC : Cᴴ * C = 1) : ovlp C (C * U) = U.det := by
   unfold ovlp; rw [← Matrix.mul_assoc, hC, Matrix.one_mul]
+
+/-! ## every trial kind at once: a bra is a linear functional of products of minors
+
+Whatever the trial (determinant lists, CISD-type expansions, NOCI, GHF written in a product basis, …),
+its overlap with a walker `(Wa, Wb)` is a finite linear combination of products of a minor of `Wa` and
+a minor of `Wb` (`⟨ψ_T| = Σ_i c_i ⟨S_i| ⊗ ⟨T_i|`).  For such a functional the statements of this
+property hold without looking at the trial's formulas: re-orthonormalisation multiplies the overlap by
+`det Ra · det Rb`, and every mixed estimator `⟨ψ_T|Ô|φ⟩/⟨ψ_T|φ⟩` with `Ô` a linear combination of
+one-body group elements `A_j ⊗ B_j` (which is how the AD-based kinds literally evaluate force bias and
+energy, as derivatives of the overlap of `(1 + xO)W` / `exp(xO)W`) is unchanged. -/
+
+/-- a general bra on the two spin blocks -/
+def anyBra {ι : Type} [Fintype ι] (c : ι → K) (ea : ι → Fin ka → Fin m) (eb : ι → Fin kb → Fin m)
+    (Wa : Matrix (Fin m) (Fin ka) K) (Wb : Matrix (Fin m) (Fin kb) K) : K :=
+  ∑ i, c i * ((Wa.submatrix (ea i) id).det * (Wb.submatrix (eb i) id).det)
+
+theorem minor_mul_right {k' : ℕ} (Q : Matrix (Fin m) (Fin k') K) (R : Matrix (Fin k') (Fin k') K) (e : Fin k' → Fin m) :
+    ((Q * R).submatrix e id).det = (Q.submatrix e id).det * R.det := by
+  have h : (Q * R).submatrix e id = Q.submatrix e id * R := by
+    ext i j; simp [Matrix.mul_apply, Matrix.submatrix_apply]
+  rw [h, Matrix.det_mul]
+
+/-- **overlap(original) = overlap(orthonormal) × norm factor for every trial kind** -/
+theorem anyBra_factorises {ι : Type} [Fintype ι] (c : ι → K) (ea : ι → Fin ka → Fin m) (eb : ι → Fin kb → Fin m)
+    (Qa : Matrix (Fin m) (Fin ka) K) (Qb : Matrix (Fin m) (Fin kb) K)
+    (Ra : Matrix (Fin ka) (Fin ka) K) (Rb : Matrix (Fin kb) (Fin kb) K) :
+    anyBra c ea eb (Qa * Ra) (Qb * Rb) = anyBra c ea eb Qa Qb * (Ra.det * Rb.det) := by
+  unfold anyBra
+  rw [Finset.sum_mul]
+  refine Finset.sum_congr rfl fun i _ => ?_
+  rw [minor_mul_right, minor_mul_right]; ring
+
+/-- numerator of a mixed estimator: `Ô = Σ_j d_j (A_j ⊗ B_j)` acting on the walker -/
+def anyNumerator {ι κ : Type} [Fintype ι] [Fintype κ] (c : ι → K) (ea : ι → Fin ka → Fin m) (eb : ι → Fin kb → Fin m)
+    (d : κ → K) (A B : κ → Matrix (Fin m) (Fin m) K)
+    (Wa : Matrix (Fin m) (Fin ka) K) (Wb : Matrix (Fin m) (Fin kb) K) : K :=
+  ∑ j, d j * anyBra c ea eb (A j * Wa) (B j * Wb)
+
+/-- **mixed estimators (force bias, local energy, Green's functions) are unchanged by
+re-orthonormalisation, for every trial kind** -/
+theorem anyEstimator_invariant {ι κ : Type} [Fintype ι] [Fintype κ] (c : ι → K) (ea : ι → Fin ka → Fin m)
+    (eb : ι → Fin kb → Fin m) (d : κ → K) (A B : κ → Matrix (Fin m) (Fin m) K)
+    (Qa : Matrix (Fin m) (Fin ka) K) (Qb : Matrix (Fin m) (Fin kb) K)
+    (Ra : Matrix (Fin ka) (Fin ka) K) (Rb : Matrix (Fin kb) (Fin kb) K) (ha : Ra.det ≠ 0) (hb : Rb.det ≠ 0) :
+    anyNumerator c ea eb d A B (Qa * Ra) (Qb * Rb) / anyBra c ea eb (Qa * Ra) (Qb * Rb)
+      = anyNumerator c ea eb d A B Qa Qb / anyBra c ea eb Qa Qb := by
+  have hnum : anyNumerator c ea eb d A B (Qa * Ra) (Qb * Rb) = anyNumerator c ea eb d A B Qa Qb * (Ra.det * Rb.det) := by
+    unfold anyNumerator
+    rw [Finset.sum_mul]
+    refine Finset.sum_congr rfl fun j _ => ?_
+    rw [← Matrix.mul_assoc, ← Matrix.mul_assoc, anyBra_factorises]; ring
+  rw [hnum, anyBra_factorises]
+  have hne : Ra.det * Rb.det ≠ 0 := mul_ne_zero ha hb
+  rw [mul_div_mul_right _ _ hne]
+
+/-- non-vacuity: the single-determinant overlap `det(Cᴴ W)` is such a functional (Cauchy–Binet, C01), and a
+two-term bra on concrete data evaluates as expected -/
+example : anyBra (ka := 1) (kb := 1) (m := 2) (fun _ : Fin 2 => (1 : ℚ)) (fun i _ => i) (fun i _ => i)
+    !![1; 2] !![3; 4] = 1 * 3 + 2 * 4 := by
+  simp [anyBra, Fin.sum_univ_two, Matrix.det_unique]
 
 end AfqmcVerif.Props.C13
